@@ -451,6 +451,10 @@ func RegionCoverage(node *decode.Value, lo, hi int64) (other []int, own []int, l
 			return nil
 		}
 		if isSynthetic(v) {
+			// covers nothing, but its (empty) range is among the ranges the gap fill merges
+			if r.Len == 0 {
+				leaves = append(leaves, [2]int64{r.Start - lo, 0})
+			}
 			return nil
 		}
 		leaves = append(leaves, [2]int64{r.Start - lo, r.Len})
